@@ -18,6 +18,8 @@ from black_it.schedulers.rl.envs.base import CalibrationEnv
 from harness.calib import FreeLoss, SaveRecorder, ScriptedSampler, make_sampler_class, model_uf, world
 from harness.common import Case, all_eq, f
 from symx.core import lift
+from symx.core import reraise_if_harness  # noqa: E402
+from harness.rlintro import agent_threads, rl_queues, session_open  # noqa: E402
 
 LEVEL = "model_checking"
 FUNCTIONS = [
@@ -84,11 +86,17 @@ class ZeroRewardEnv(CalibrationEnv):
 
 def _teardown(sched):
     """Harness hygiene: never leave a blocked agent thread behind in the checker process."""
-    th = getattr(sched, "_agent_thread", None)
-    if th is not None and th.is_alive():
-        sched._stopped = True
-        sched._out_queue.put(None)
-        th.join(2)
+    # release a possibly blocked agent thread: end marker on the outcome queue (whatever the attributes are called)
+    live = [t for t in threading.enumerate() if t is not threading.main_thread() and t.is_alive() and not t.name.startswith("verif-")]
+    if live:
+        try:
+            if "_stopped" in vars(sched):
+                sched._stopped = True
+            rl_queues(sched)[1].put(None)
+        except BaseException:  # noqa: BLE001, S110
+            pass
+        for t in live:
+            t.join(2)
 
 
 def case(kind, sched_kind, nb, B, E, folder):
@@ -173,6 +181,7 @@ def case(kind, sched_kind, nb, B, E, folder):
             c, st, _ = build(ctx, k, "F")
             # same loss variables as the twin for the same evaluation index (functional consistency links them anyway)
             raised = None
+            threads_before = list(threading.enumerate())
             try:
                 c.calibrate(nb)
             except Injected as e:
@@ -192,11 +201,11 @@ def case(kind, sched_kind, nb, B, E, folder):
             else:
                 ctx.prove(z3.BoolVal(True), "history_is_prefix", "empty prefix")
             if sched_kind == "rl":
-                th = c.scheduler._agent_thread
+                th = next(iter(agent_threads(threads_before)), None)
                 if th is not None:
                     th.join(0.5)
                 alive = th is not None and th.is_alive()
-                ctx.prove(z3.BoolVal(not alive and c.scheduler._stopped is True), "no_thread_left", f"agent thread alive={alive} _stopped={c.scheduler._stopped}")
+                ctx.prove(z3.BoolVal(not alive and session_open(c.scheduler) is not True), "no_thread_left", f"agent thread alive={alive} session still open={session_open(c.scheduler)}")
             else:
                 ctx.prove(z3.BoolVal(True), "no_thread_left", "round-robin starts no thread")
             # reuse: a further calibrate(2) must return (watchdog: a hang is a violation, not a harness stall) and add two batches
@@ -210,6 +219,7 @@ def case(kind, sched_kind, nb, B, E, folder):
                     box["ok"] = c.current_batch_index == before_ + 2 and len(c.losses_samp) > rows and len(c.losses_samp) == c.n_sampled_params
                     box["why"] = f"batches {before_}->{c.current_batch_index}, rows {len(c.losses_samp)}"
                 except BaseException as e:  # noqa: BLE001
+                    reraise_if_harness(e)
                     box["ok"], box["why"] = False, f"next calibrate raised {type(e).__name__}: {e}"
 
             if sched_kind == "rl":
@@ -318,11 +328,13 @@ def replay_concrete(kind, sched_kind, nb, B, E, folder, k):
     c, cnt, tmp = run(k)
     try:
         raised = None
+        threads_before = list(threading.enumerate())
         try:
             c.calibrate(nb)
         except Injected as e:
             raised = e
         except Exception as e:  # noqa: BLE001
+            reraise_if_harness(e)
             raised = e
         if raised is None or raised is not cnt["exc"]:
             bad = True
@@ -338,13 +350,13 @@ def replay_concrete(kind, sched_kind, nb, B, E, folder, k):
             bad = True
             msgs.append("history differs from the fault-free run's prefix")
         if sched_kind == "rl":
-            th = c.scheduler._agent_thread
+            th = next(iter(agent_threads(threads_before)), None)
             if th is not None:
                 th.join(0.5)
             if th is not None and th.is_alive():
                 bad = True
                 msgs.append("agent thread still alive after the exception")
-            if c.scheduler._stopped is not True:
+            if session_open(c.scheduler) is True:
                 bad = True
                 msgs.append("session flag still 'running'")
         box = {}
@@ -356,6 +368,7 @@ def replay_concrete(kind, sched_kind, nb, B, E, folder, k):
                 if c.current_batch_index != before + 2:
                     box["msg"] = "next calibrate(2) did not add exactly two batches"
             except BaseException as e:  # noqa: BLE001
+                reraise_if_harness(e)
                 box["msg"] = f"next calibrate(2) raised {type(e).__name__}: {e}"
 
         th2 = threading.Thread(target=again, daemon=True)
@@ -364,9 +377,11 @@ def replay_concrete(kind, sched_kind, nb, B, E, folder, k):
         if th2.is_alive():
             bad = True
             msgs.append("next calibrate(2) on the same object never returned (6 s watchdog); live threads: " + ", ".join(t.name for t in threading.enumerate() if t is not threading.main_thread())[:200])
-            c.scheduler._stopped = True
-            c.scheduler._out_queue.put(None)
-            c.scheduler._in_queue.put(0)
+            _teardown(c.scheduler)
+            try:
+                rl_queues(c.scheduler)[0].put(0)
+            except BaseException:  # noqa: BLE001, S110
+                pass
         elif "msg" in box:
             bad = True
             msgs.append(box["msg"])
